@@ -8,13 +8,18 @@ for d in seeded/*/; do
   n=$(basename $d)
   [ -f $d/meta.json ] || continue
   id=$(python3 -c "import json,sys; print(json.load(open('$d/meta.json'))['property'])")
+  if python3 -c "import json,sys; sys.exit(0 if json.load(open('$d/meta.json')).get('obsolete') else 1)"; then echo "$n $id OBSOLETE"; continue; fi
   git -C /tmp/mutrepo checkout -q -- .
   if ! git -C /tmp/mutrepo apply --check /verif/$d/patch.diff 2>/dev/null; then echo "$n $id PATCH-DOES-NOT-APPLY"; continue; fi
   git -C /tmp/mutrepo apply /verif/$d/patch.diff
   r=""
+  # the check(s) that catch the change: the property's own, unless the meta names others (check_with)
+  cw=$(python3 -c "import json; print(' '.join(json.load(open('$d/meta.json')).get('check_with') or ['$id']))")
   for s in $SEEDS; do
-    out=$(DDS_REPO=/tmp/mutrepo VERIF_SEED=$s ./check $id 2>&1 | grep -c "^VIOLATION")
-    r="$r $s:$out"
+    for c in $cw; do
+      out=$(DDS_REPO=/tmp/mutrepo VERIF_SEED=$s ./check $c 2>&1 | grep -c "^VIOLATION")
+      r="$r $c/$s:$out"
+    done
   done
   git -C /tmp/mutrepo checkout -q -- .
   echo "$n $id$r"
